@@ -304,8 +304,6 @@ theorem ct_eq_iff_affine_eq (x1 y1 z1 x2 y2 z2 : F) :
 example : jacToAffine (4 : Toy.K) 8 2 = jacToAffine 1 1 1 :=
   (ct_eq_iff_affine_eq (4 : Toy.K) 8 2 1 1 1).1 (by decide)
 
-example : homToAffine (2 : Toy.K) 4 2 = homToAffine 1 2 1 :=
-  (bn_ct_eq_iff_affine_eq (2 : Toy.K) 4 2 1 2 1).1 (by decide)
 
 /-- `ct_eq` / `PartialEq` of `derive/curve.rs` (`x₁z₂ = x₂z₁`, `y₁z₂ = y₂z₁`, identities apart)
 decides equality of the affine values. -/
@@ -319,6 +317,9 @@ theorem bn_ct_eq_iff_affine_eq (x1 y1 z1 x2 y2 z2 : F) :
     simp only [homCtEq, h1, h2, decide_false, Bool.false_and, Bool.not_false, Bool.true_and,
       Bool.false_or, Bool.and_eq_true, decide_eq_true_eq]
     exact this
+
+example : homToAffine (2 : Toy.K) 4 2 = homToAffine 1 2 1 :=
+  (bn_ct_eq_iff_affine_eq (2 : Toy.K) 4 2 1 2 1).1 (by decide)
 
 end weierstrass
 
